@@ -467,14 +467,21 @@ func genSession(r *Rng, nlaps int, maxRows int, t0ms int64, withOBD int, pat obd
 		}
 		rows := r.Intn(maxRows + 1)
 		now := int64(r.Intn(500))
+		crawl := r.Chance(0.12)
 		for j := 0; j < rows; j++ {
 			step := int64(10 + r.Intn(2000))
 			t += step
 			now += step
 			upd := r.Chance(0.6)
 			if upd && r.Chance(0.85) {
-				lat += float64(r.Intn(200)-100) / 1e6
-				lon += float64(r.Intn(200)-100) / 1e6
+				if crawl {
+					// walking pace at a high fix rate: a few centimetres per update
+					lat += float64(r.Intn(9)-4) / 1e7
+					lon += float64(r.Intn(9)-4) / 1e7
+				} else {
+					lat += float64(r.Intn(200)-100) / 1e6
+					lon += float64(r.Intn(200)-100) / 1e6
+				}
 			}
 			rec := jRec{NowMs: now, TimeMs: t, ZoneMin: zone, Upd: upd, Lat: lat, Lon: lon, Alt: float64(r.Intn(2000)) / 10, Acc: float64(r.Intn(200)) / 7,
 				Head: float64(r.Intn(3600)) / 10, Speed: float64(r.Intn(300000))/1000 - 5}
